@@ -826,4 +826,242 @@ theorem target_scale_of_level (e : Env) [hp : Fact e.t.Prime] (h64 : e.t < 2 ^ 6
       unfold UnitS at huq
       field_simp
 
+/-! ## the scale-invariant (BFV) mode: the target scale for EVERY degree -/
+
+section bfv
+variable (e : Env) [hp : Fact e.t.Prime] (h64 : e.t < 2 ^ 64) (hinv : e.inv = true)
+variable (L : Int) (hnq : UnitS e (negQ e L))
+
+/-- scale-invariant mode: every simulated power sits at the input level `L` with a unit scale -/
+def SimInvB (d : List (Nat × SimOpd)) : Prop :=
+  ∀ n xp, d.find? (·.1 == n) = some xp → UnitS e xp.2.scale ∧ xp.2.level = L
+
+include h64 hinv hnq in
+theorem simInvB_simGenPower (fuel : Nat) : ∀ (n : Nat) (d : List (Nat × SimOpd)),
+    SimInvB e L d → SimInvB e L (simGenPower e fuel n d) := by
+  induction fuel with
+  | zero => intro n d h; rw [simGenPower]; exact h
+  | succ fuel ih =>
+    intro n d h
+    rw [simGenPower]
+    split
+    · exact h
+    · simp only []
+      have h2 := ih (splitDegree n).2 _ (ih (splitDegree n).1 d h)
+      generalize simGenPower e fuel (splitDegree n).2 (simGenPower e fuel (splitDegree n).1 d) = D at h2
+      cases ha : D.find? (·.1 == (splitDegree n).1) with
+      | none => simp only; exact h2
+      | some oa =>
+        cases hb : D.find? (·.1 == (splitDegree n).2) with
+        | none => simp only; exact h2
+        | some ob =>
+          simp only
+          obtain ⟨hua, hla⟩ := h2 _ _ ha
+          obtain ⟨hub, hlb⟩ := h2 _ _ hb
+          intro m xp hm
+          rw [find?_cons_filter] at hm
+          by_cases hnm : n = m
+          · rw [if_pos hnm] at hm
+            simp only [Option.some.injEq] at hm
+            subst hm
+            simp only [simRescale, simMul, mulScale, hinv, if_true, hla, hlb, min_self]
+            exact ⟨unit_divS e h64 _ _ (unit_mulS e _ _ hua hub) hnq, trivial⟩
+          · rw [if_neg hnm] at hm
+            exact h2 m xp hm
+
+include h64 hinv hnq in
+theorem simInvB_simPowers (deg : Nat) (sc : Nat) (hsc : UnitS e sc) : SimInvB e L (simPowers e deg L sc) := by
+  unfold simPowers
+  simp only []
+  have h0 : SimInvB e L [(1, { level := L, scale := sc })] := by
+    intro n xp hf
+    simp only [List.find?_cons, List.find?_nil] at hf
+    split at hf
+    · simp only [Option.some.injEq] at hf
+      subst hf
+      exact ⟨hsc, rfl⟩
+    · cases hf
+  have h1 := simInvB_simGenPower e h64 hinv L hnq (2 * deg + 8) (2 ^ bitLen deg) _ h0
+  generalize simGenPower e (2 * deg + 8) (2 ^ bitLen deg) [(1, { level := L, scale := sc })] = D at h1
+  have hall : ∀ l : List Nat, ∀ D, SimInvB e L D →
+      SimInvB e L (l.foldl (fun d k =>
+        if 2 ^ optimalSplit (bitLen deg) - 1 - k > 2 then
+          simGenPower e (2 * deg + 8) (2 ^ optimalSplit (bitLen deg) - 1 - k) d else d) D) := by
+    intro l
+    induction l with
+    | nil => intro D h; exact h
+    | cons k l ih =>
+      intro D h
+      simp only [List.foldl_cons]
+      apply ih
+      split
+      · exact simInvB_simGenPower e h64 hinv L hnq _ _ _ h
+      · exact h
+  exact hall _ D h1
+
+include h64 hinv hnq in
+/-- **recursePS_scale_bfv**: in the scale-invariant mode the simulated evaluation of ANY sub-polynomial
+    towards (level `L`, scale `out`) comes back at level `L` with the scale `out` — for every split -/
+theorem recursePS_scale_bfv (pb : List (Nat × SimOpd)) (hpb : SimInvB e L pb) (fuel : Nat) :
+    ∀ (s : Nat) (p : SubPoly) (out : Nat) (subs : List SubPoly) (res : SimOpd), out < e.t →
+      recursePS e pb fuel s L p out = some (subs, res) → res.level = L ∧ res.scale = out := by
+  induction fuel with
+  | zero => intro s p out subs res _ h; rw [recursePS] at h; cases h
+  | succ fuel ih =>
+    intro s p out subs res hout h
+    rw [recursePS] at h
+    by_cases hbaby : p.degree < 2 ^ s
+    · rw [if_pos hbaby] at h
+      split at h
+      · exact ih _ p out subs res hout h
+      · simp only [Option.some.injEq, Prod.mk.injEq] at h
+        rw [← h.2]
+        exact ⟨rfl, by simp [babyScale, hinv]⟩
+    · rw [if_neg hbaby] at h
+      simp only [] at h
+      cases hx : pb.find? (·.1 == nextPower s p.degree) with
+      | none => rw [hx] at h; cases h
+      | some xp =>
+        rw [hx] at h
+        simp only [] at h
+        obtain ⟨hux, hlx⟩ := hpb _ _ hx
+        have hgl : giantLevelScale e p.lead L out xp.2.scale = (L, mulS e (divS e out xp.2.scale) (negQ e L)) := by
+          simp [giantLevelScale, hinv]
+        rw [hgl] at h
+        simp only [] at h
+        cases hq' : recursePS e pb fuel s L (p.factorize e (nextPower s p.degree)).1
+            (mulS e (divS e out xp.2.scale) (negQ e L)) with
+        | none => rw [hq'] at h; cases h
+        | some rq =>
+          rw [hq'] at h
+          simp only [] at h
+          obtain ⟨hlq, hsq⟩ := ih s _ _ rq.1 rq.2 (mulS_lt e _ _) hq'
+          split at h
+          · cases h
+          · split at h
+            · cases h
+            · simp only [Option.some.injEq, Prod.mk.injEq] at h
+              rw [← h.2]
+              constructor
+              · simp only [simMul, simRescale, hinv, if_true, hlq, hlx, min_self]
+              · simp only [simMul, simRescale, mulScale, hinv, if_true, hlq, hlx, min_self, hsq]
+                apply eq_of_cast e _ _ (divS_lt e _ _) hout
+                rw [cast_divS e h64 _ _ hnq, cast_mulS, cast_mulS, cast_divS e h64 _ _ hux]
+                unfold UnitS at hux hnq
+                field_simp
+
+end bfv
+
+section machine_bfv
+variable (e : Env)
+
+/-- scale-invariant mode: `Rescale` is a no-op, the final step keeps scale and level -/
+theorem post_finish_inv (hinv : e.inv = true) (fin : List (Nat × Opd)) :
+    Post (finish e fin) (fun o => ∃ d v, fin = [(d, v)] ∧ o.scale = v.scale ∧ o.level = v.level) := by
+  match fin with
+  | [] => unfold finish; exact post_throw _
+  | [(d, v)] =>
+    unfold finish
+    simp only
+    apply post_bind (Qa := fun o => o.scale = v.scale ∧ o.level = v.level)
+    · apply post_ite
+      · intro _; unfold relinOp; exact post_bind (post_true _) (fun _ _ => post_pure ⟨rfl, rfl⟩)
+      · intro _; exact post_pure ⟨rfl, rfl⟩
+    · intro v1 hv1
+      unfold rescaleOp
+      apply post_bind (post_true _); intro _ _
+      rw [hinv]
+      simp only [if_true]
+      exact post_pure ⟨d, v, rfl, hv1.1, hv1.2⟩
+  | _ :: _ :: _ => unfold finish; exact post_throw _
+
+theorem post_evalSubs_inv (ht : e.t ≠ 0) (hinv : e.inv = true) (mapping : Option (List (List Nat))) (subs : List SubPoly) :
+    Post (evalSubs e mapping subs) (fun o => ∀ sp, subs.getLast? = some sp → o.scale = sp.scale ∧ o.level ≤ sp.level) := by
+  unfold evalSubs
+  apply post_bind (post_babySteps e mapping subs []); intro bs hbs
+  apply post_bind (post_giantLoop e ht _ bs); intro fin hfin
+  apply post_mono (post_finish_inv e hinv fin)
+  intro o ⟨d, v, hf, hsc, hlv⟩ sp hsp
+  rcases hbs with ⟨h1, _⟩ | ⟨sp', v', rest, h1, h2, h3, h4⟩
+  · rw [h1] at hsp; simp at hsp
+  · rw [hsp] at h1
+    simp only [Option.some.injEq] at h1
+    subst h1
+    subst h2
+    subst hf
+    have hs := hfin.1
+    simp only [List.head?_cons, Option.map_some, Option.some.injEq] at hs
+    have hl := hfin.2.1 (sp.degree, v') (d, v) rfl rfl
+    simp only at hl
+    exact ⟨by rw [hsc, hs, h3], by rw [hlv]; exact le_trans hl h4⟩
+
+/-- a successful evaluation of a polynomial of degree ≥ 1 went through a decomposition of the simulator
+    and then `evalSubs` on it -/
+theorem evaluateFrom_subs (polys : List (List Int))
+    (hdeg : (polys.headD []).length - 1 ≠ 0) (mapping : Option (List (List Nat))) (lazy : Bool) (ts : Nat)
+    (x1 : Opd) (st st' : St) (o : Opd) (hx1 : st.pb.find? (·.1 == 1) = some (1, x1))
+    (h : ex (evaluateFrom e polys mapping lazy ts) st = (.ok o, st')) :
+    ∃ r s2, recursePS e (simPowers e ((polys.headD []).length - 1) x1.level x1.scale)
+        (2 * ((polys.headD []).length - 1) + 8) (optimalSplit (bitLen ((polys.headD []).length - 1)))
+        (x1.level - simDepth e ((polys.headD []).length - 1))
+        { coeffs := polys, maxDeg := (polys.headD []).length - 1, lead := true } ts = some r ∧
+      ex (evalSubs e mapping r.1) s2 = (.ok o, st') := by
+  unfold evaluateFrom at h
+  simp only [] at h
+  obtain ⟨a, s1, h1, h2⟩ := ex_bind_ok h
+  rw [ex_getP, hx1] at h1
+  simp only [Prod.mk.injEq, Except.ok.injEq] at h1
+  obtain ⟨rfl, rfl⟩ := h1
+  rw [if_neg hdeg] at h2
+  split at h2
+  · simp at h2
+  · obtain ⟨_, s2, _, h3⟩ := ex_bind_ok h2
+    cases hr : recursePS e (simPowers e ((polys.headD []).length - 1) x1.level x1.scale)
+        (2 * ((polys.headD []).length - 1) + 8) (optimalSplit (bitLen ((polys.headD []).length - 1)))
+        (x1.level - simDepth e ((polys.headD []).length - 1))
+        { coeffs := polys, maxDeg := (polys.headD []).length - 1, lead := true } ts with
+    | none => rw [hr] at h3; simp at h3
+    | some r =>
+      rw [hr] at h3
+      simp only [] at h3
+      exact ⟨r, s2, rfl, h3⟩
+
+end machine_bfv
+
+/-- **target_scale_bfv** (EVERY degree `d ≥ 1`, every input level, scale-invariant mode, exact scales
+    modulo the prime `t`): the input scale and `-Q_L mod t` units, the target scale reduced.  Whenever the
+    run succeeds, its scale IS the requested one and its level is at most the input's. -/
+theorem target_scale_bfv (e : Env) [hp : Fact e.t.Prime] (h64 : e.t < 2 ^ 64) (hinv : e.inv = true)
+    (d : Nat) (hd1 : 1 ≤ d) (polys : List (List Int)) (hpl : (polys.headD []).length = d + 1)
+    (mapping : Option (List (List Nat))) (lazy : Bool) (L : Nat)
+    (hnq : UnitS e (negQ e (L : Int)))
+    (is : Nat) (his : UnitS e is) (ts : Nat) (hts : ts < e.t) (x : List Int) (tr : List String) (o : Opd)
+    (hrun : run e polys mapping lazy L is ts x = (tr, "ok", some o)) : o.scale = ts ∧ o.level ≤ (L : Int) := by
+  have ht : e.t ≠ 0 := t_ne_zero e
+  have hdeg : (polys.headD []).length - 1 = d := by omega
+  rw [run_eq] at hrun
+  cases hex : ex (evaluate e polys mapping lazy L is ts x) {} with
+  | mk r st =>
+    rw [hex] at hrun
+    cases r with
+    | error er => simp only [Prod.mk.injEq] at hrun; exact absurd hrun.2.2 (by simp)
+    | ok o' =>
+      simp only [Prod.mk.injEq, Option.some.injEq] at hrun
+      obtain ⟨_, _, rfl⟩ := hrun
+      unfold evaluate at hex
+      obtain ⟨_, s1, h1, h2⟩ := ex_bind_ok hex
+      simp only [ex_setP, Prod.mk.injEq] at h1
+      have hs1 : s1.pb.find? (·.1 == 1) = some (1, { level := (L : Int), scale := is, deg := 1, val := x }) := by
+        rw [← h1.2]; simp
+      obtain ⟨r, s2, hr, hev⟩ := evaluateFrom_subs e polys (by omega) mapping lazy ts _ s1 st o' hs1 h2
+      simp only [hdeg] at hr
+      have hsd : simDepth e d = 0 := by simp [simDepth, hinv]
+      rw [hsd] at hr
+      simp only [Nat.cast_zero, sub_zero] at hr
+      have hpb := simInvB_simPowers e h64 hinv (L : Int) hnq d is his
+      obtain ⟨hrl, hrs⟩ := recursePS_scale_bfv e h64 hinv (L : Int) hnq _ hpb _ _ _ _ r.1 r.2 hts hr
+      obtain ⟨sp, hlast, hssc, hslv⟩ := recursePS_last e _ _ _ _ _ _ r.1 r.2 hr
+      have := (post_evalSubs_inv e ht hinv mapping r.1).out s2 o' st hev sp hlast
+      exact ⟨by rw [this.1, hssc, hrs], by rw [← hslv]; exact this.2⟩
+
 end Lattigo.Model.PolyEval
